@@ -526,6 +526,7 @@ static size_t consume(struct endpoint *ep, size_t max)
 	struct evbuffer *in;
 	size_t len, n, got = 0, m;
 	uint64_t at;
+	unsigned char *lbuf;
 	int r;
 	if (ep->freed) return 0;
 	in = bufferevent_get_input(ep->top);
@@ -533,6 +534,7 @@ static size_t consume(struct endpoint *ep, size_t max)
 	n = len < max ? len : max;
 	if (!n) return 0;
 	if (consume_depth) vh_stat("consume_nested_in_drain");
+	lbuf = consume_depth ? malloc(sizeof(rbuf)) : rbuf;
 	consume_depth++;
 	switch (ep->rd_api) {
 	case 1: {
@@ -572,13 +574,14 @@ static size_t consume(struct endpoint *ep, size_t max)
 			size_t rr;
 			m = n - got > sizeof(rbuf) ? sizeof(rbuf) : n - got;
 			at = ep->consumed; ep->consumed += m;
-			rr = bufferevent_read(ep->top, rbuf, m);
+			rr = bufferevent_read(ep->top, lbuf, m);
 			if (rr != m) { vh_viol(mkkey(ep->s, "remove-short"), "bufferevent_read(%zu) returned %zu with %zu buffered", m, rr, n - got); ep->s->ended = 1; break; }
-			verify_at(ep, at, rbuf, m);
+			verify_at(ep, at, lbuf, m);
 			got += m;
 		}
 	}
 	consume_depth--;
+	if (lbuf != rbuf) free(lbuf);
 	vh_stat_add("bytes_consumed", (long)got);
 	return got;
 }
